@@ -313,3 +313,40 @@ pub fn h2() -> OptionParser<(bool, Cmd1)> {
     let cmd = c1_add().version("9.9").command("add");
     construct!(v, cmd).to_options().fallback_to_usage()
 }
+
+// ---------------------------------------------------------------------------------------------
+// adjacent subcommand chains (C19, C05)
+
+fn kc_cmd() -> impl Parser<bool> {
+    short('a').long("all").switch().to_options().command("c").adjacent()
+}
+
+/// `c [-a]` repeated, next to a top level switch and a positional tail
+pub fn kc() -> OptionParser<(bool, Vec<bool>, Vec<u32>)> {
+    let v = short('v').long("verbose").switch();
+    let cmds = kc_cmd().many();
+    let rest = positional::<u32>("REST").many();
+    construct!(v, cmds, rest).to_options()
+}
+
+/// a switch evaluated *before* an optional adjacent option-struct (so the group may find
+/// already-consumed items inside its block)
+pub fn k3() -> OptionParser<(bool, Option<(u32, u32)>)> {
+    let s = short('s').long("sw").switch();
+    let r = rect().optional();
+    construct!(s, r).to_options().help_parser(long("help").help("help"))
+}
+
+/// repeated adjacent option-struct after a switch
+pub fn k4() -> OptionParser<(bool, Vec<(u32, u32)>)> {
+    let s = short('s').long("sw").switch();
+    let r = rect().many();
+    construct!(s, r).to_options().help_parser(long("help").help("help"))
+}
+
+/// a *required* top level argument before a subcommand
+pub fn c4() -> OptionParser<(u32, Cmd1)> {
+    let t = short('t').long("top").argument::<u32>("T");
+    let cmd = c1_add().command("add");
+    construct!(t, cmd).to_options()
+}
